@@ -10,8 +10,11 @@ import (
 	"bytes"
 	"fmt"
 	"os"
+	"os/exec"
 	"path/filepath"
+	"regexp"
 	"sort"
+	"strconv"
 	"strings"
 	"testing"
 )
@@ -280,7 +283,113 @@ func gvcDirFs(t *testing.T) (DirFs, string) {
 	return NewDirFs(root), root
 }
 
+// gvcSyscallOrder runs AtomicCreate in a child under strace and checks the order the kernel saw:
+// every byte of data is written to the staging descriptor, a flush of that descriptor follows the
+// last write, and only then is the staging name renamed over the target. "" if the order is right
+// or the trace cannot be taken here (no strace, ptrace refused).
+func gvcSyscallOrder(t *testing.T) string {
+	strace, err := exec.LookPath("strace")
+	if err != nil {
+		return ""
+	}
+	root := t.TempDir()
+	os.Mkdir(filepath.Join(root, "d"), 0o755)
+	trace := filepath.Join(t.TempDir(), "trace")
+	cmd := exec.Command(strace, "-f", "-o", trace, "-e", "trace=openat,write,pwrite64,writev,fsync,fdatasync,sync,syncfs,rename,renameat,renameat2",
+		os.Args[0], "-test.run=^TestGvcReplay$")
+	cmd.Env = append(os.Environ(), "GVC_STRACE_CHILD="+root)
+	out, err := cmd.CombinedOutput()
+	raw, rerr := os.ReadFile(trace)
+	if rerr != nil || !bytes.Contains(raw, []byte("x.tmp")) {
+		_ = out
+		return "" // no trace here
+	}
+	if err != nil {
+		return "" // the child did not finish: the other scenarios report panics
+	}
+	// pid  call(args) = ret | pid call(args <unfinished ...> | pid <... call resumed>rest) = ret
+	full := regexp.MustCompile(`^(\d+)\s+(\w+)\((.*)\)\s+= (-?\d+)`)
+	unfin := regexp.MustCompile(`^(\d+)\s+(\w+)\((.*) <unfinished \.\.\.>`)
+	resumed := regexp.MustCompile(`^(\d+)\s+<\.\.\. (\w+) resumed>.*= (-?\d+)`)
+	pending := map[string][2]string{} // pid -> call, args
+	fd := ""
+	written, flushedAt, lastWrite, renamed := 0, -1, -1, -1
+	firstArg := func(a string) string {
+		if i := strings.IndexByte(a, ','); i >= 0 {
+			return a[:i]
+		}
+		return a
+	}
+	for i, line := range strings.Split(string(raw), "\n") {
+		var call, args string
+		ret, started := 0, false
+		if m := full.FindStringSubmatch(line); m != nil {
+			call, args = m[2], m[3]
+			ret, _ = strconv.Atoi(m[4])
+			started = true
+		} else if m := unfin.FindStringSubmatch(line); m != nil {
+			pending[m[1]] = [2]string{m[2], m[3]}
+			call, args, started = m[2], m[3], true
+			ret = -2 // not known yet
+		} else if m := resumed.FindStringSubmatch(line); m != nil {
+			pa := pending[m[1]]
+			call, args = pa[0], pa[1]
+			ret, _ = strconv.Atoi(m[3])
+		} else {
+			continue
+		}
+		switch call {
+		case "openat":
+			if strings.Contains(args, `d/x.tmp"`) && ret >= 0 {
+				fd = strconv.Itoa(ret)
+			}
+		case "write", "pwrite64", "writev":
+			if fd != "" && firstArg(args) == fd && ret != -2 {
+				if ret > 0 {
+					written += ret
+				}
+				lastWrite = i
+			}
+		case "fsync", "fdatasync":
+			if fd != "" && firstArg(args) == fd && started {
+				flushedAt = i // the flush covers what was written before it started
+			}
+		case "sync", "syncfs":
+			if started {
+				flushedAt = i
+			}
+		case "rename", "renameat", "renameat2":
+			if strings.Contains(args, `d/x.tmp"`) && strings.Contains(args, `d/x"`) && started && renamed < 0 {
+				renamed = i
+			}
+		}
+	}
+	n := len(gvcBigData())
+	switch {
+	case fd == "":
+		return "" // staged some other way: nothing this scenario can say
+	case renamed < 0:
+		return ""
+	case written != n:
+		return fmt.Sprintf("the staging file received %d of %d bytes before it was renamed over the target", written, n)
+	case flushedAt < 0:
+		return "the staging file is renamed over the target without ever being flushed"
+	case flushedAt < lastWrite:
+		return "the last flush of the staging file is issued before its last write: the data renamed into place is not durable"
+	case renamed < flushedAt:
+		return "the staging file is renamed over the target before it is flushed"
+	}
+	return ""
+}
+
+func gvcBigData() []byte { return bytes.Repeat([]byte("durable-before-visible\n"), 3000) }
+
 func TestGvcReplay(t *testing.T) {
+	if root := os.Getenv("GVC_STRACE_CHILD"); root != "" {
+		fs := NewDirFs(root)
+		fs.AtomicCreate("d", "x", gvcBigData())
+		os.Exit(0)
+	}
 	fn := os.Getenv("GVC_REPLAY_FUNC")
 	confirm := func(format string, a ...any) {
 		fmt.Printf("REPLAY-CONFIRMED %s: %s\n", fn, fmt.Sprintf(format, a...))
@@ -352,6 +461,10 @@ func TestGvcReplay(t *testing.T) {
 			}
 		}
 		fs2.CloseFs()
+		if s := gvcSyscallOrder(t); s != "" {
+			confirm("system calls of AtomicCreate(\"d\", \"x\", 69000 bytes) under strace: %s", s)
+			return
+		}
 	}
 	fmt.Printf("REPLAY-NOT-REPRODUCED %s\n", fn)
 }
